@@ -35,7 +35,7 @@ theorem digitStr_single {k : Nat} (h : k < 10) : DigitStr [digitChar k] := by
   exact ⟨k, h, hc⟩
 
 /-- what `itoaAux` computes: a non-empty digit string spelling `n`, put in front of the accumulator -/
-theorem itoaAux_spec : ∀ (fuel n : Nat) (acc : Str), n < fuel →
+theorem itoaAux_spec' : ∀ (fuel n : Nat) (acc : Str), n < fuel →
     ∃ ds : Str, itoaAux fuel n acc = ds ++ acc ∧ DigitStr ds ∧ ds ≠ [] ∧ natOfDigits ds = n := by
   intro fuel
   induction fuel with
@@ -51,15 +51,15 @@ theorem itoaAux_spec : ∀ (fuel n : Nat) (acc : Str), n < fuel →
       rw [natOfDigits_snoc, hv, digitChar_sub48' hm]
       omega
 
-theorem itoaNat_spec (n : Nat) : DigitStr (itoaNat n) ∧ itoaNat n ≠ [] ∧ natOfDigits (itoaNat n) = n := by
-  obtain ⟨ds, e, hd, hne, hv⟩ := itoaAux_spec (n + 1) n [] (by omega)
+theorem itoaNat_spec' (n : Nat) : DigitStr (itoaNat n) ∧ itoaNat n ≠ [] ∧ natOfDigits (itoaNat n) = n := by
+  obtain ⟨ds, e, hd, hne, hv⟩ := itoaAux_spec' (n + 1) n [] (by omega)
   unfold itoaNat
   rw [e, append_nil]
   exact ⟨hd, hne, hv⟩
 
-theorem digitStr_itoaNat (n : Nat) : DigitStr (itoaNat n) := (itoaNat_spec n).1
-theorem itoaNat_ne_nil (n : Nat) : itoaNat n ≠ [] := (itoaNat_spec n).2.1
-theorem natOfDigits_itoaNat (n : Nat) : natOfDigits (itoaNat n) = n := (itoaNat_spec n).2.2
+theorem digitStr_itoaNat (n : Nat) : DigitStr (itoaNat n) := (itoaNat_spec' n).1
+theorem itoaNat_ne_nil' (n : Nat) : itoaNat n ≠ [] := (itoaNat_spec' n).2.1
+theorem natOfDigits_itoaNat (n : Nat) : natOfDigits (itoaNat n) = n := (itoaNat_spec' n).2.2
 
 theorem digitsVal_digitStr {s : Str} (h : DigitStr s) (acc : Nat) :
     digitsVal s acc = some (s.foldl (fun a c => a * 10 + (c.toNat - 48)) acc) := by
@@ -71,8 +71,8 @@ theorem digitsVal_digitStr {s : Str} (h : DigitStr s) (acc : Nat) :
     simp only [digitsVal, digitVal_digitChar hk, foldl_cons, digitChar_sub48' hk]
     exact ih (fun x hx => h x (by simp [hx])) _
 
-theorem parseDigits_itoaNat (n : Nat) : parseDigits (itoaNat n) = some n := by
-  have hne := itoaNat_ne_nil n
+theorem parseDigits_itoaNat' (n : Nat) : parseDigits (itoaNat n) = some n := by
+  have hne := itoaNat_ne_nil' n
   have hv := natOfDigits_itoaNat n
   unfold parseDigits
   cases hs : itoaNat n with
@@ -98,9 +98,9 @@ def Int64 (v : Int) : Prop := -9223372036854775808 ≤ v ∧ v ≤ 9223372036854
 instance (v : Int) : Decidable (Int64 v) :=
   inferInstanceAs (Decidable (-9223372036854775808 ≤ v ∧ v ≤ 9223372036854775807))
 
-theorem atoi_itoaNat (n : Nat) (h : n ≤ 9223372036854775807) : atoi (itoaNat n) = some (n : Int) := by
-  have hp := parseDigits_itoaNat n
-  have hne := itoaNat_ne_nil n
+theorem atoi_itoaNat' (n : Nat) (h : n ≤ 9223372036854775807) : atoi (itoaNat n) = some (n : Int) := by
+  have hp := parseDigits_itoaNat' n
+  have hne := itoaNat_ne_nil' n
   cases hs : itoaNat n with
   | nil => exact absurd hs hne
   | cons c cs =>
@@ -121,19 +121,19 @@ theorem atoi_itoa (v : Int) (h : Int64 v) : atoi (itoa v) = some v := by
   unfold itoa
   by_cases hneg : v < 0
   · rw [if_pos hneg]
-    simp only [atoi, parseDigits_itoaNat]
+    simp only [atoi, parseDigits_itoaNat']
     have : v.natAbs ≤ int64Max + 1 := by unfold int64Max; omega
     rw [if_pos this]
     congr 1
     omega
-  · rw [if_neg hneg, atoi_itoaNat _ (by omega)]
+  · rw [if_neg hneg, atoi_itoaNat' _ (by omega)]
     congr 1
     omega
 
 /-- the value seen when the error is dropped is the same -/
-theorem atoiLoose_itoaNat (n : Nat) (h : n ≤ 9223372036854775807) : atoiLoose (itoaNat n) = (n : Int) := by
-  have hp := parseDigits_itoaNat n
-  have hne := itoaNat_ne_nil n
+theorem atoiLoose_itoaNat' (n : Nat) (h : n ≤ 9223372036854775807) : atoiLoose (itoaNat n) = (n : Int) := by
+  have hp := parseDigits_itoaNat' n
+  have hne := itoaNat_ne_nil' n
   cases hs : itoaNat n with
   | nil => exact absurd hs hne
   | cons c cs =>
@@ -153,11 +153,11 @@ theorem atoiLoose_itoa (v : Int) (h : Int64 v) : atoiLoose (itoa v) = v := by
   unfold itoa
   by_cases hneg : v < 0
   · rw [if_pos hneg]
-    simp only [atoiLoose, parseDigits_itoaNat]
+    simp only [atoiLoose, parseDigits_itoaNat']
     have : v.natAbs ≤ int64Max + 1 := by unfold int64Max; omega
     simp only [this, ↓reduceIte]
     omega
-  · rw [if_neg hneg, atoiLoose_itoaNat _ (by omega)]
+  · rw [if_neg hneg, atoiLoose_itoaNat' _ (by omega)]
     omega
 
 /-! ### characters of `Itoa` -/
@@ -184,7 +184,7 @@ theorem itoa_ne_nil (v : Int) : itoa v ≠ [] := by
   unfold itoa
   split
   · simp
-  · exact itoaNat_ne_nil _
+  · exact itoaNat_ne_nil' _
 
 /-- a numeric character is not a comma, not a space, not a line break, not a brace -/
 theorem numChar_ne_comma {c : Char} (h : numChar c = true) : c ≠ ',' := by
